@@ -99,6 +99,10 @@ impl<'a> WriteableGraph for EngineWriteTxn<'a> {
         EngineWriteTxn::get_or_create_label(self, name).map_err(|e| Error::Other(e.to_string()))
     }
 
+    fn known_label_id(&self, name: &str) -> Option<LabelId> {
+        EngineWriteTxn::known_label_id(self, name)
+    }
+
     fn get_or_create_rel_type_id(&mut self, name: &str) -> Result<RelTypeId> {
         EngineWriteTxn::get_or_create_rel_type(self, name).map_err(|e| Error::Other(e.to_string()))
     }
